@@ -1353,3 +1353,46 @@ PROPS = {
                 rule="instance = (writer function, class rule) / (length store, shrink rule) / (Bvd fn, used-words rule) / "
                      "(Bv method, symmetry); non-trivial = instance whose rule had a non-vacuous premise (not a floor/anchor)"),
 }
+
+
+# ---- explanation addenda for the rule families added after the first registry was written (DESIGN sections 13-15) ----------
+_DBG = ("DBGFX: the side effects of the functions this property depends on are the same with debug assertions on and off "
+        "(nothing mutating inside debug_assert!/cfg!(debug_assertions)).")
+_ADDENDA = {
+    "C01": _DBG + " Helpers introduced after the review are seen through (census-based inlining); a kernel moved into a closure-parameterised "
+           "helper is reported undecided for CARRY/COVER but stays under MASK/USED, and a helper that builds a vector is judged on its own.",
+    "C02": _DBG,
+    "C03": "POS: a word index taken from enumerate() behind a filtering adaptor counts surviving items, not positions. ZIPREF: the left operand "
+           "of a zip over by_ref() iterators is not consumed again. " + _DBG + " (crate-wide).",
+    "C04": _DBG,
+    "C05": "OVF-SHIFT: every overflow-checked + or * on the saturated shift amount is one of three bounded forms (reasoned table). " + _DBG,
+    "C07": _DBG,
+    "C08": "SHRINK/MASK on resize: split_off/split/truncate leave the low part in place through resize(index), which must clear what it drops. " + _DBG,
+    "C09": "ZIPREF: the left operand of a zip over by_ref() iterators is not consumed again (zip drops one of its items). Comparing raw word slices "
+           "of different lengths is lexicographic, not numeric (violation); equal explicit lengths or iterator adaptors are undecided.",
+    "C10": "ZIPREF on eq/hash (an equality that skips a word makes values with different hashes equal); the hasher may be fed from a closure or "
+           "from a helper introduced after the review (tainted through them). " + _DBG,
+    "C11": "NOPANIC: in vector -> integer conversions every bounds check is discharged by a loop bound over the used words or a guard on the storage "
+           "length, and there is no explicit panic. " + _DBG,
+    "C12": "POS: a word index taken from enumerate() behind a filtering adaptor counts surviving items, not positions. " + _DBG,
+    "C13": _DBG,
+    "C15": _DBG,
+    "C18": "ORDER: extend/collect reserve the size hint and then push (each push re-checks capacity / promotes); with_capacity allocates "
+           "capacity_from_bit_len(c) words; promotion/demotion predicates are matched as relations (any spelling). " + _DBG,
+    "C19": "GUARD-PRED: the error predicates on the Bvf side are exact, not merely present. DEBUG-IDX: the index assertion's passing edge dominates "
+           "every return. " + _DBG,
+    "C20": "MASK/USED on the operator kernels and Clone, NARROW, CARRY for integer right-hand sides: the forms can only agree if every kernel behind "
+           "them is canonical on its own (twin comparisons are reported as leads only). " + _DBG,
+}
+for _pid, _txt in _ADDENDA.items():
+    PROPS[_pid]["explanation"] = PROPS[_pid]["explanation"].rstrip() + " " + _txt
+PROPS["C17"]["explanation"] = (
+    "ITER: every path of every BitIterator method is summarised as affine forms over the entry state (range.start, range.end, n) and compared "
+    "with the slice-iterator contract: guard, returned element index, final range (exhausted after an over-run), every addition/subtraction "
+    "bounded by the guards before it (so debug and release agree for arguments up to usize::MAX); calls between the methods are expanded from "
+    "the callee summaries; optional overrides may be absent. SAFE: the iterator holds &B so iterating cannot modify the vector; iter()/into_iter "
+    "are forwarders. " + _DBG)
+PROPS["C17"]["level"] = ("static path summaries (affine dataflow, no execution, no solver) over MIR; decides the per-call contract of the iterator "
+                         "including huge arguments and exhaustion")
+PROPS["C17"]["technique"] = ("static analysis: affine propagation along the loop-free paths of each method, comparison with a contract table, "
+                             "interprocedural summaries")
